@@ -16,7 +16,7 @@ use vcore::{enumerate as en, Check, Stats};
 const SIGMA_TXT: &[&str] = &[
     "a", "\"", "\\", " ", "\t", "\n", "\r", "\u{0}", "\u{8}", "\u{7f}", "é", "\u{2028}", "'", "/",
     // white space for Unicode / ASCII classifications, ordinary characters for GraphQL
-    "\u{c}", "\u{a0}",
+    "\u{c}", "\u{85}",
     // a control character whose \uXXXX escape differs between hexadecimal and decimal digits
     "\u{1f}",
 ];
